@@ -7,7 +7,7 @@ SPEC = ('mirsym.checks.parse_level', 'ParseCheck')
 def plan(tier):
     if tier == 'thorough':
         return dict(root_L=7, other_L=6, compl_L=5, t2_L=6, diff=0, per=3000)
-    return dict(root_L=6, other_L=4, compl_L=4, t2_L=4, diff=400, per=420)
+    return dict(root_L=6, other_L=4, compl_L=4, t2_L=4, diff=400, per=900)
 
 
 def check(run):
